@@ -273,6 +273,15 @@ func runIter(c *core.Ctx, pkg string, pair bool) {
 		if fn.Signature.Recv() == nil && !token.IsExported(fn.Name()) {
 			continue
 		}
+		// likewise the methods of unexported helper types that are not iterators themselves (a named predicate
+		// type with a `test(seq)` method): they see their arguments only through the callers that were followed
+		if r := fn.Signature.Recv(); r != nil {
+			if nt := namedBehindPtr(r.Type()); nt != nil && !nt.Obj().Exported() {
+				if o, _, _ := types.LookupFieldOrMethod(r.Type(), true, nt.Obj().Pkg(), "Next"); o == nil {
+					continue
+				}
+			}
+		}
 		an := c.AnalyzeLoops(fn)
 		name := sh + "." + fnLabel(fn)
 		if problems(c, "nil-is-empty", name, an) {
@@ -676,7 +685,7 @@ func predicateNext(c *core.Ctx, rule, name string, fn *ssa.Function, an *ir.Anal
 			// giving up without even trying to advance is right only in the dead state (the predicate was cleared, the
 			// inner iterator is gone, a done flag is set): a live iterator whose Next answers false at once loses the
 			// rest of the sequence
-			if isRet && !rv && p.From == nil && len(evs) == 0 && !deadStateEstablished(p, fn) {
+			if isRet && !rv && p.From == nil && len(evs) == 0 && !deadStateEstablished(an, p, fn) {
 				fail(lastPos(p), "Next answers false without advancing the inner iterator although no dead state (a cleared field / a set flag of the receiver) was established on this path: the rest of the sequence is lost")
 			}
 		}
@@ -703,13 +712,35 @@ func recvFieldTerm(t *ir.Term, fn *ssa.Function) bool {
 	return false
 }
 
-// deadStateEstablished: the path has found a field of the receiver nil, or a boolean field of the receiver set.
-func deadStateEstablished(p *ir.Path, fn *ssa.Function) bool {
+// deadStateEstablished: the path has found a field of the receiver nil, a boolean field of the receiver set, or a
+// field of the receiver equal to a constant that the method itself stores into that field somewhere (a state enum:
+// `state == closed` where the predicate's failure does `state = closed`).
+func deadStateEstablished(an *ir.Analysis, p *ir.Path, fn *ssa.Function) bool {
+	marks := map[string]bool{} // field + "=" + constant stored by the method
+	for _, q := range an.AllPaths() {
+		for _, s := range q.Events(ir.KStore) {
+			if s.A[0].Op == "faddr" && paramOf(s.A[0].Args[0], fn, 0) && s.A[1].IsConst() && !s.A[1].IsNil() {
+				marks[s.A[0].Aux+"="+s.A[1].Aux] = true
+			}
+		}
+	}
+	fieldName := func(t *ir.Term) string {
+		if t.Op == "field" {
+			return t.Aux
+		}
+		if t.Op == "load" && len(t.Args) == 1 && t.Args[0].Op == "faddr" {
+			return t.Args[0].Aux
+		}
+		return ""
+	}
 	for _, s := range p.Events(ir.KBranch) {
 		at := s.Atom
 		if at.Op == "bin" && at.Aux == "==" && len(at.Args) == 2 && s.Pol {
 			for i := 0; i < 2; i++ {
 				if at.Args[i].IsNil() && recvFieldTerm(at.Args[1-i], fn) {
+					return true
+				}
+				if at.Args[i].IsConst() && recvFieldTerm(at.Args[1-i], fn) && marks[fieldName(at.Args[1-i])+"="+at.Args[i].Aux] {
 					return true
 				}
 			}
@@ -1648,6 +1679,11 @@ func leafRules(c *core.Ctx, pkg string, pair bool) {
 	okS := true
 	whyS := ""
 	an := c.AnalyzeLoops(fs)
+	if sst, isS := snt.Underlying().(*types.Struct); isS && sst.NumFields() == 2 {
+		// the other representation of the same leaf: the whole slice plus the position of the current element
+		leafCursorForm(c, sname, fs, snt, an)
+		return
+	}
 	for _, p := range an.AllPaths() {
 		if p.Exit != ir.ExitReturn {
 			continue
@@ -1705,6 +1741,115 @@ func leafRules(c *core.Ctx, pkg string, pair bool) {
 		}
 	}
 	c.Check(okS, "leaves", sname, fs.Pos(), "nil for empty; Value = el[0]; Next: el = el[1:] unless last", "%s", whyS)
+}
+
+// leafCursorForm: FromSlice represented as {el: the whole slice, at: index of the current element}:
+// nil for the empty slice, else {xs, 0}; Value = el[at]; Next: false without a change when at is the last index,
+// else at+1 and true. The decision of Next is checked by evaluating its branch conditions for every (len, at) with
+// 0 <= at < len <= 4, whichever way the comparison is written.
+func leafCursorForm(c *core.Ctx, sname string, fs *ssa.Function, snt *types.Named, an *ir.Analysis) {
+	st := snt.Underlying().(*types.Struct)
+	elF, atF := "", ""
+	for i := 0; i < st.NumFields(); i++ {
+		switch u := st.Field(i).Type().Underlying().(type) {
+		case *types.Slice:
+			elF = st.Field(i).Name()
+		case *types.Basic:
+			if u.Info()&types.IsInteger != 0 {
+				atF = st.Field(i).Name()
+			}
+		}
+	}
+	if elF == "" || atF == "" {
+		c.Fail("leaves", sname, fs.Pos(), "the slice iterator is neither {remaining slice} nor {slice, position}")
+		return
+	}
+	okS, whyS := true, ""
+	for _, p := range an.AllPaths() {
+		if p.Exit != ir.ExitReturn {
+			continue
+		}
+		empty := polarity(p, &ir.Term{Op: "bin", Aux: "==", Args: sorted2(ir.Const("0"), &ir.Term{Op: "len", Args: []*ir.Term{{Op: "param", Aux: fs.Params[0].Name()}}})})
+		r := p.Results[0]
+		switch {
+		case empty > 0 && !r.IsNil():
+			okS, whyS = false, "an empty slice must give nil"
+		case empty < 0:
+			lit := p.End.MemAt(r)
+			z, isZ := fieldOf2(lit, atF).IntConst()
+			if r.IsNil() || lit == nil || !paramOf(fieldOf2(lit, elF), fs, 0) || !isZ || z != 0 {
+				okS, whyS = false, "a non-empty slice must be wrapped unchanged with the position at 0"
+			}
+		case empty == 0:
+			okS, whyS = false, "emptiness of the slice is not tested"
+		}
+	}
+	recvF := func(fn *ssa.Function, f string) *ir.Term {
+		return &ir.Term{Op: "load", Aux: "0", Args: []*ir.Term{{Op: "faddr", Aux: f, Args: []*ir.Term{{Op: "param", Aux: fn.Params[0].Name()}}}}}
+	}
+	if v := iterMethod(c, snt, "Value"); v != nil {
+		if p := singlePath(c, "leaves", sname, v); p != nil {
+			r := p.Results[0]
+			if !(r.Op == "load" && r.Args[0].Op == "iaddr" && ir.Same(r.Args[0].Args[0], recvF(v, elF)) && ir.Same(r.Args[0].Args[1], recvF(v, atF))) {
+				okS, whyS = false, "Value must be the element at the current position, found "+short(r)
+			}
+		}
+	}
+	if n := iterMethod(c, snt, "Next"); n != nil {
+		nan := c.AnalyzeLoops(n)
+		el, at := recvF(n, elF), recvF(n, atF)
+		lenEl := &ir.Term{Op: "len", Args: []*ir.Term{el}}
+		if problems(c, "leaves", sname, nan) {
+			return
+		}
+		for L := int64(1); L <= 4 && okS; L++ {
+			for a := int64(0); a < L && okS; a++ {
+				nFeasible := 0
+				for _, p := range nan.AllPaths() {
+					feasible := true
+					for _, b := range p.Events(ir.KBranch) {
+						ev := ir.Rebuild(substTerm(substTerm(b.Atom, lenEl, ir.Const(fmt.Sprint(L))), at, ir.Const(fmt.Sprint(a))))
+						if !ev.IsConst() || (ev.Aux != "true" && ev.Aux != "false") {
+							okS, whyS = false, "Next decides on something other than the position and the length: "+short(b.Atom)
+							feasible = false
+							break
+						}
+						if (ev.Aux == "true") != b.Pol {
+							feasible = false
+							break
+						}
+					}
+					if !feasible {
+						continue
+					}
+					nFeasible++
+					rv, isRet := retBool(p)
+					stores := nonLocalStores(p)
+					switch {
+					case !isRet:
+						okS, whyS = false, "Next does not return a constant"
+					case a == L-1 && (rv || len(stores) != 0):
+						okS, whyS = false, "on the last element Next must return false and change nothing"
+					case a < L-1:
+						good := rv && len(stores) == 1 && stores[0].A[0].Op == "faddr" && stores[0].A[0].Aux == atF && paramOf(stores[0].A[0].Args[0], n, 0)
+						if good {
+							d, isD := plusConst(stores[0].A[1], at)
+							good = isD && d == 1
+						}
+						if !good {
+							okS, whyS = false, "with elements left Next must move the position by exactly one and return true"
+						}
+					}
+				}
+				if nFeasible != 1 && okS {
+					okS, whyS = false, fmt.Sprintf("Next has %d ways to answer at position %d of %d", nFeasible, a, L)
+				}
+			}
+		}
+	} else {
+		okS, whyS = false, "the slice iterator has no Next"
+	}
+	c.Check(okS, "leaves", sname, fs.Pos(), "nil for empty; {xs, 0}; Value = el[at]; Next: at+1 unless last", "%s", whyS)
 }
 
 func forEachRule(c *core.Ctx, pkg string, pair bool) {
